@@ -325,6 +325,18 @@ def platform_parse(timeout_ms=None):
     return rep
 
 
+def pyversion(timeout_ms=None):
+    """C11 / C02: _normalize_python_version_specifier and the specifier view of version atoms over dotted integer texts"""
+    from pyvc import extract, verify
+    from contracts import pyversion as PV
+    ix = extract.Index()
+    th, cs = PV.setup(ix)
+    rep = verify.verify_cases(ix, th, PV.NORM, list(PV.cases(th)), use_contracts=list(cs), contracts=cs, timeout_ms=timeout_ms)
+    rep.functions[PV.NORM]["hash"] = ix.func(PV.NORM).source_hash()
+    rep.functions[PV.NORM]["mode"] = "verified against its contract"
+    return rep
+
+
 # ---------------------------------------------------------------- C10
 MEMO_WHITELIST = {
     # lazy cache of MarkerExpression: only read through `specifier`, which fills it from _get_specifier() (a function of the compared
